@@ -125,6 +125,9 @@ func Build(r *Repr, t *cqlref.Type, v *cqlref.Value) (reflect.Value, error) {
 	if err != nil {
 		return reflect.Value{}, err
 	}
+	if tm, ok := x.(time.Time); ok && r.K == RTime && r.Zone > 0 {
+		x = tm.In(Zones[r.Zone-1]) // same instant, other location
+	}
 	return reflect.ValueOf(x), nil
 }
 
